@@ -183,6 +183,7 @@ impl Vm {
     pub fn execute(&mut self, function: Root<ObjFunction>, args: &[Value]) -> Result<Value, Error> {
         self.ip = ptr::null();
         self.fiber = None;
+        self.handling_exception = false;
         let module = self.module(&function.module_path);
         let closure = self.new_root_obj_closure(function.as_gc(), module);
         let fiber = self.new_root_obj_fiber(closure.as_gc());
